@@ -149,6 +149,12 @@ def cases():
             for sp in ("initial", "handshake"):
                 for a in ("c", "s"):
                     out.append((name, a, sp))
+        elif name == "sd-existing-reset-far":
+            # the interesting victim state (local stop_sending() still waiting for the peer's final size) is only hit
+            # by some packet positions: several draws per round
+            for _ in range(8):
+                out.append((name, "c", "app"))
+            out.append((name, "s", "app"))
         elif name == "sd-local-bidi-plus1":
             out.append((name, "s", "app"))      # only a client opens bidirectional streams in the workload
             out.append((name, "s", "app"))
